@@ -56,7 +56,7 @@ def run_config(cfg, mode='all', decisions=None):
     for p in nprocs:
         pmax *= p
     symx.set_bv(LS.bv_width(max(nprocs), N, nd))
-    mins = LS.min_extents(nd, [(layouts, nprocs)])
+    mins = [1] * nd if cfg.get('small') else LS.min_extents(nd, [(layouts, nprocs)])          # 'small': extents below the process count too
     size = pmax
     st = {}
     t0 = time.time()
@@ -258,6 +258,14 @@ def configs(tier):
         for a, b in ([('A', 'C')] if tier == 'quick' else [('A', 'C'), ('C', 'A')]):
             for buf in (False, True):
                 add(3, grid, chain1, a, b, buf, 3)
+    # ---- extents below the process count (some processes hold no points; the handler accepts that)
+    small_pairs = [('L012', 'L102', False)] if tier == 'quick' else [('L012', 'L102', False), ('L102', 'L012', False), ('L012', 'L102', True), ('L102', 'L012', True)]
+    for a, b, buf in small_pairs:
+        add(3, (3,), {'L012': [0, 1, 2], 'L102': [1, 0, 2]}, a, b, buf, 3 if tier == 'quick' else 4)
+        out[-1]['small'] = True
+    if tier != 'quick':
+        add(3, (2, 2), {'L012': [0, 1, 2], 'L210': [2, 1, 0]}, 'L012', 'L210', False, 3)
+        out[-1]['small'] = True
     # ---- four layouts in a chain: the only route from A to D has three steps (the loop over the remaining steps runs twice)
     chain4 = {'A': [0, 1, 2], 'B': [2, 1, 0], 'C': [2, 0, 1], 'D': [1, 0, 2]}
     for grid in grids:
@@ -339,7 +347,7 @@ def main():
         run.canaries.append(dict(name=name, detected=hit))
         if not hit:
             run.canary_miss(name, caught)
-    run.bounds = dict(quick='ranks 2-3, extents n_i in [p_i, N] with N=4 (2-D) / 3 (3-D), grids (2),(3),(1,2),(2,1),(2,2)',
+    run.bounds = dict(quick='ranks 2-3, extents n_i in [p_i, N] with N=4 (2-D) / 3 (3-D), grids (2),(3),(1,2),(2,1),(2,2); one configuration with extents in [1, 3] on 3 processes (processes without points)',
                       thorough='ranks 2-4, N=6/4/3, grids up to 3 processes per direction (see configs())',
                       this_run=run.tier)
     run.outside = ['extents above N', 'more than 3 (quick) / 4 processes per direction', 'more than two distributed directions',
